@@ -216,7 +216,7 @@ func c16Message(t gen.TB, w *gen.World, source string) (*pb.QuoteV4, []byte) {
 			gen.HarnessError(t, "valid quote does not parse: %v", err)
 		}
 		return a.(*pb.QuoteV4), raw
-	case "built":
+	case "built", "stale-sizes":
 		m := w.Q.ToProto()
 		rehome(m.ProtoReflect(), 64)
 		return m, raw
@@ -228,6 +228,59 @@ func c16Message(t gen.TB, w *gen.World, source string) (*pb.QuoteV4, []byte) {
 		}
 		return m, raw
 	}
+}
+
+func cloneBytes(b []byte) []byte {
+	if b == nil {
+		return nil
+	}
+	return append([]byte{}, b...)
+}
+
+func cloneList(l [][]byte) [][]byte {
+	if l == nil {
+		return nil
+	}
+	out := make([][]byte, len(l))
+	for i := range l {
+		out[i] = cloneBytes(l[i])
+	}
+	return out
+}
+
+// deepCopyOptions copies the exported fields of validation options (nil-ness preserved).
+func deepCopyOptions(o *validate.Options) *validate.Options {
+	b := o.TdQuoteBodyOptions
+	return &validate.Options{
+		HeaderOptions: validate.HeaderOptions{MinimumQeSvn: o.HeaderOptions.MinimumQeSvn, MinimumPceSvn: o.HeaderOptions.MinimumPceSvn, QeVendorID: cloneBytes(o.HeaderOptions.QeVendorID)},
+		TdQuoteBodyOptions: validate.TdQuoteBodyOptions{MinimumTeeTcbSvn: cloneBytes(b.MinimumTeeTcbSvn), MrSeam: cloneBytes(b.MrSeam), TdAttributes: cloneBytes(b.TdAttributes), Xfam: cloneBytes(b.Xfam), MrTd: cloneBytes(b.MrTd),
+			MrConfigID: cloneBytes(b.MrConfigID), MrOwner: cloneBytes(b.MrOwner), MrOwnerConfig: cloneBytes(b.MrOwnerConfig), Rtmrs: cloneList(b.Rtmrs), ReportData: cloneBytes(b.ReportData), AnyMrTd: cloneList(b.AnyMrTd)},
+	}
+}
+
+func sameBytesExact(a, b []byte) bool { return (a == nil) == (b == nil) && bytes.Equal(a, b) }
+
+func sameListExact(a, b [][]byte) bool {
+	if (a == nil) != (b == nil) || len(a) != len(b) {
+		return false
+	}
+	for i := range a {
+		if !sameBytesExact(a[i], b[i]) {
+			return false
+		}
+	}
+	return true
+}
+
+func sameBodyOptions(a, b *validate.TdQuoteBodyOptions) bool {
+	return sameBytesExact(a.MinimumTeeTcbSvn, b.MinimumTeeTcbSvn) && sameBytesExact(a.MrSeam, b.MrSeam) && sameBytesExact(a.TdAttributes, b.TdAttributes) && sameBytesExact(a.Xfam, b.Xfam) &&
+		sameBytesExact(a.MrTd, b.MrTd) && sameBytesExact(a.MrConfigID, b.MrConfigID) && sameBytesExact(a.MrOwner, b.MrOwner) && sameBytesExact(a.MrOwnerConfig, b.MrOwnerConfig) &&
+		sameBytesExact(a.ReportData, b.ReportData) && sameListExact(a.Rtmrs, b.Rtmrs) && sameListExact(a.AnyMrTd, b.AnyMrTd)
+}
+
+func fieldsJSONOfOptions(o *validate.Options) map[string]any {
+	b := o.TdQuoteBodyOptions
+	return map[string]any{"rtmrs": hxs(b.Rtmrs), "any_mr_td": hxs(b.AnyMrTd), "mr_td": hx(b.MrTd), "mr_seam": hx(b.MrSeam)}
 }
 
 func raceLogs() string {
@@ -247,13 +300,40 @@ func raceLogs() string {
 func TestC16(t *testing.T) {
 	replayDir(t, "C16")
 	sources := []string{"parsed", "built", "wire"}
+	snapshotSources := []string{"parsed", "built", "wire", "stale-sizes"}
 
 	// (1) deterministic: before/after snapshots to capacity around every single call; aliasing of parsed quotes.
 	gen.Prop(t, "snapshots", gen.N(300, 20000), func(t *rapid.T) {
 		w, _ := gen.DrawWorld(t, gen.WorldCfg{MaxAuth: 200, Simple: rapid.Bool().Draw(t, "simple")})
 		w.Build()
-		src := rapid.SampledFrom(sources).Draw(t, "source")
+		src := rapid.SampledFrom(snapshotSources).Draw(t, "source")
 		m, raw := c16Message(t, w, src)
+		if src == "stale-sizes" {
+			// a message put together field by field whose size fields do not (or no longer) describe its contents
+			// (the calls may well refuse it; they must not "repair" the caller's message)
+			d := uint32(rapid.SampledFrom([]int{1, 2, 255, 65536}).Draw(t, "sizeDelta"))
+			sub := rapid.Bool().Draw(t, "sizeTooSmall")
+			adj := func(v *uint32) {
+				if sub && *v >= d {
+					*v -= d
+				} else {
+					*v += d
+				}
+			}
+			switch rapid.IntRange(0, 4).Draw(t, "staleField") {
+			case 0:
+				adj(&m.SignedDataSize)
+			case 1:
+				adj(&m.SignedData.CertificationData.Size)
+			case 2:
+				adj(&m.SignedData.CertificationData.QeReportCertificationData.QeAuthData.ParsedDataSize)
+			case 3:
+				adj(&m.SignedData.CertificationData.QeReportCertificationData.PckCertificateChainData.Size)
+			default:
+				adj(&m.SignedData.CertificationData.Size)
+				adj(&m.SignedDataSize)
+			}
+		}
 		call := rapid.SampledFrom(c16Calls).Draw(t, "call")
 		var regions []memRegion
 		messageRegions("quote.", m.ProtoReflect(), &regions)
@@ -311,6 +391,47 @@ func TestC16(t *testing.T) {
 		q := drawPolicyQuote(t, s)
 		p := drawPolicyFields(t, q, s)
 		p.MinQeSvn, p.MinPceSvn = 0, 0
+		if rapid.Bool().Draw(t, "wellFormedSizes") {
+			// every byte string of the right size (so that conversion succeeds and validation runs), lists with empty
+			// entries in front of, between and behind full ones
+			fix := func(b *[]byte, n int) {
+				if *b != nil && len(*b) != n {
+					*b = nil
+				}
+			}
+			fix(&p.QeVendorID, 16)
+			fix(&p.MinTeeTcbSvn, 16)
+			fix(&p.MrSeam, 48)
+			fix(&p.TdAttributes, 8)
+			fix(&p.Xfam, 8)
+			fix(&p.MrTd, 48)
+			fix(&p.MrConfigID, 48)
+			fix(&p.MrOwner, 48)
+			fix(&p.MrOwnerConfig, 48)
+			fix(&p.ReportData, 64)
+			mkList := func(n int, label string) [][]byte {
+				out := make([][]byte, n)
+				for i := range out {
+					switch rapid.IntRange(0, 2).Draw(t, fmt.Sprintf("%s%d", label, i)) {
+					case 0:
+						out[i] = []byte{}
+					case 1:
+						out[i] = s.Bytes(48)
+					default:
+						out[i] = append([]byte{}, q.MrTd[:]...)
+					}
+				}
+				return out
+			}
+			p.AnyMrTd = mkList(rapid.IntRange(0, 4).Draw(t, "anyLen"), "any")
+			p.Rtmrs = mkList(4, "rtmr")
+			for i := range p.Rtmrs {
+				if len(p.Rtmrs[i]) == 48 && rapid.Bool().Draw(t, fmt.Sprintf("rtmrEq%d", i)) {
+					p.Rtmrs[i] = append([]byte{}, q.Rtmr[i][:]...)
+				}
+			}
+			gen.Class("policy-snapshot:well-formed-sizes")
+		}
 		pol := fieldsToPolicy(p, false, false)
 		rehome(pol.ProtoReflect(), 32)
 		var regions []memRegion
@@ -325,7 +446,13 @@ func TestC16(t *testing.T) {
 		})
 		if v.Accepted() {
 			m := q.ToProto()
+			optsBefore := deepCopyOptions(opts)
 			gen.Call(func() error { return validate.TdxQuote(m, opts) })
+			gen.Class("policy-snapshot:validated")
+			if !reflect.DeepEqual(optsBefore.HeaderOptions, opts.HeaderOptions) || !sameBodyOptions(&optsBefore.TdQuoteBodyOptions, &opts.TdQuoteBodyOptions) {
+				gen.Fail(t, gen.Violation{Key: "writes-to-options", Oracle: "validation never writes to the options it is given (values, list entries, list order)", Detail: fmt.Sprintf("options before %v, after %v", fieldsJSONOfOptions(optsBefore), fieldsJSONOfOptions(opts)), Replay: map[string]any{"kind": "memory-policy"}})
+				return
+			}
 		}
 		if d := changed(regions); d != "" || !proto.Equal(before, pol) {
 			gen.Fail(t, gen.Violation{Key: "writes-to-policy", Oracle: "conversion and validation never write to the policy / option byte strings", Detail: d, Replay: map[string]any{"kind": "memory-policy"}})
